@@ -108,7 +108,36 @@ def k14_merge(ctx) -> None:
         ctx.ok("K14", "the surviving root is chosen in another way (which root survives is not judged)")
     # verified flag: arrangement A (flag read before the merge, re-marked after) or B (moved inside the loop)
     flag = [(n, bd) for n, bd in PT.find_all(f, "self.is_verified(_E_x) or self.is_verified(_E_y)") if {bd["_E_x"], bd["_E_y"]} == {a, b}]
-    if flag:
+    # the same flag in two steps: v = is_verified(x); if not v: v = is_verified(y)
+    two = []
+    for st1 in f.body:
+        t1, v1 = PT.assign_value(st1)
+        if not (isinstance(t1, ast.Name) and isinstance(v1, ast.Call) and norm(v1.func) == "self.is_verified" and len(v1.args) == 1):
+            continue
+        i1 = f.body.index(st1)
+        nxt = f.body[i1 + 1] if i1 + 1 < len(f.body) else None
+        if isinstance(nxt, ast.If) and norm(nxt.test) == f"not {t1.id}" and not nxt.orelse and len(nxt.body) == 1:
+            t2, v2 = PT.assign_value(nxt.body[0])
+            if isinstance(t2, ast.Name) and t2.id == t1.id and isinstance(v2, ast.Call) and norm(v2.func) == "self.is_verified" and len(v2.args) == 1 \
+                    and {norm(v1.args[0]), norm(v2.args[0])} == {a, b}:
+                two.append((st1, {"_M_v": t1.id}))
+    if two and not flag:
+        vname = two[0][1]["_M_v"]
+        first = two[0][0] if not isinstance(two[0][0], list) else two[0][0][0]
+        defs_v = [s_ for s_ in walk_local(f) if isinstance(s_, (ast.Assign, ast.AnnAssign)) and any(isinstance(t, ast.Name) and t.id == vname for t in (s_.targets if isinstance(s_, ast.Assign) else [s_.target]))]
+        def _top(st_):
+            cur = st_
+            while getattr(cur, "_parent", None) is not f:
+                cur = cur._parent
+            return cur
+        before = all(C.dominates(f, _top(dv), s) for dv in defs_v for s in stores)
+        sets = [c for c in walk_local(f) if isinstance(c, ast.Call) and norm(c.func) == "self.set_verified" and c.args and norm(c.args[0]) in (a, b)]
+        after = [c for c in sets if (vname, True) in C.guard_texts(f, c) and all(_after(f, s, c) for s in stores)]
+        if len(defs_v) == 2 and before and after:
+            ctx.ok("K14", "the verified flag of either side is read (in two steps) before the merge and put on the merged class afterwards")
+        else:
+            ctx.violation("K14", defs_v[0] if defs_v else f, "the verified flag must be read before the roots are linked and re-applied (set_verified) after")
+    elif flag:
         fexpr = flag[0][0]
         fst = C.stmt_of(fexpr)
         # the flag is a local assigned from the expression, or the expression itself is the test
@@ -269,6 +298,15 @@ def k17_find_path(ctx) -> None:
     start = PT.find_all(f, f"_M_q.append(({a},))")
     ext = [l for l in walk_local(f) if isinstance(l, ast.For) and isinstance(l.iter, ast.Subscript) and is_self_attr(l.iter.value, "vertices")]
     grows = False
+    # canonical form of the appending loop: q.extend(p + (ne,) for ne in self.vertices[...] if ...)
+    ext_gen = [c for c in walk_local(f) if isinstance(c, ast.Call) and isinstance(c.func, ast.Attribute) and c.func.attr == "extend" and c.args
+               and isinstance(c.args[0], ast.GeneratorExp) and len(c.args[0].generators) == 1 and isinstance(c.args[0].generators[0].iter, ast.Subscript)
+               and is_self_attr(c.args[0].generators[0].iter.value, "vertices")]
+    if ext_gen and start and not ext:
+        q = start[0][1]["_M_q"]
+        g0 = ext_gen[0].args[0]
+        ne = norm(g0.generators[0].target)
+        grows = norm(ext_gen[0].func.value) == q and PT.match(PT.compile_pattern("_M_p + (_M_ne,)"), g0.elt, {"_M_ne": ne}) is not None
     if ext and start:
         q = start[0][1]["_M_q"]
         ne = norm(ext[0].target)
